@@ -204,6 +204,7 @@ def run(ctx):
     ctx.guard("C16.R7", "components complete on valid input", lambda: r7_components_complete(ctx))
     ctx.guard("C16.R10", "documented template requirements", lambda: r10_documented_requirements(ctx))
     ctx.guard("C16.R9", "equal molecules", lambda: __import__("c20").equal_molecules(ctx, "C16.R9"))
+    ctx.guard("C16.R11", "nested loops count their own passes", lambda: r11_nested_loops(ctx))
 
 
 def analyse_templates(ctx):
@@ -502,3 +503,37 @@ def r10_documented_requirements(ctx):
         ctx.check(not bad, "C16.R10", key, "accepts-documented-parameters", "parameters %s satisfy the documented requirements (%s) but the template constructor %s" % (bad[0][0] if bad else "", doc, bad[0][1] if bad else ""),
                   detail="%d parameter sets" % len(sets), loc=fn.loc())
     ctx.count("documented_parameter_sets", n)
+
+
+def r11_nested_loops(ctx):
+    """K6 (borrowing C03's bounded program semantics): the shape every ILS template has - init; while outer { perturb;
+    scope { while inner { step } }; replace } - and the plain shape of all other templates - init; while { body } - perform
+    exactly the scripted number of passes of each loop: the inner loop of the scope counts in its own counter, the outer
+    counter is what it was when the scope is left. Loop passes 0..3 (outer) x 0..2 (inner, each time the scope is entered)."""
+    import itertools
+    import progsem
+    F = ctx.facts
+    L = ("L",)
+    ils = ("B", (L, ("W", ("B", (L, ("S", ("B", (("W", ("B", (L,))),))), L)))))
+    plain = ("B", (L, ("W", ("B", (L, L)))))
+    cfgrun = F.fn("mahf::configuration::Configuration::run")
+    n = 0
+    bad = []
+    for name, shape in (("ils", ils), ("single-loop", plain)):
+        t = progsem.number(shape, [0, 0, 0])
+        cs = [k for k, _ in progsem.conds(t)]
+        for outer in range(0, 4):
+            inner_choices = list(itertools.product(range(0, 3), repeat=outer)) if len(cs) == 2 else [()]
+            for inner in inner_choices:
+                script = {cs[0]: [True] * outer + [False]}
+                if len(cs) == 2:
+                    script[cs[1]] = [b for m in inner for b in [True] * m + [False]]
+                why = progsem.compare(F, t, script, None, max_visits=40)
+                n += 1
+                if why:
+                    bad.append((name, progsem.show(t), outer, list(inner), why))
+    ctx.check(not bad, "C16.R11", cfgrun.key, "requested-number-of-passes",
+              "template shape %s `%s` with %s outer passes and inner passes %s: the configuration %s" % (bad[0] if bad else ("", "", "", "", "")),
+              detail="%d runs" % n, loc=cfgrun.loc())
+    ctx.count("nested_loop_runs", n)
+    ctx.floor("C16.R11", "nested loop runs", n, 30)
